@@ -43,7 +43,12 @@ func unhexOrEmpty(s string) []byte {
 
 // sup <maxr> <host,host,...> <round|round|...>   round = outcome,outcome,... (per host, in order): C | E | R<hex>
 // rounds beyond the script repeat the last round
-func runC20(c []string) string {
+func runC20(c []string) (res0 string) {
+	defer func() {
+		if r := recover(); r != nil {
+			res0 = fmt.Sprintf("%s panic %s", c[0], hx([]byte(fmt.Sprint(r))))
+		}
+	}()
 	maxr, _ := strconv.Atoi(c[2])
 	var hosts []string
 	for _, h := range strings.Split(c[3], ",") {
@@ -71,6 +76,9 @@ func runC20(c []string) string {
 				idx = i
 				break
 			}
+		}
+		if idx < 0 {
+			return nil, errors.New("unknown host " + host)
 		}
 		o := rounds[round][idx]
 		if o == "C" {
